@@ -211,7 +211,15 @@ func (e *Executor) RunTask(ctx context.Context, call *Call) error {
 
 		for _, p := range t.Prompt {
 			if p != "" && !e.Dry {
-				if err := e.Logger.Prompt(logger.Yellow, p, "n", "y", "yes"); errors.Is(err, logger.ErrNoTerminal) {
+				err := e.Logger.Prompt(logger.Yellow, p, "n", "y", "yes")
+				if err != nil {
+					// The up-to-date check above has already recorded the new
+					// fingerprint, but the commands are not going to run.
+					if err2 := e.statusOnError(t); err2 != nil {
+						e.Logger.VerboseErrf(logger.Yellow, "task: error cleaning status on error: %v\n", err2)
+					}
+				}
+				if errors.Is(err, logger.ErrNoTerminal) {
 					verifhook.Ev(ctx, "promptFail")
 					return &errors.TaskCancelledNoTerminalError{TaskName: call.Task}
 				} else if errors.Is(err, logger.ErrPromptCancelled) {
